@@ -1770,3 +1770,40 @@ def run(idx, rep, tier):
                   'process ends, all connections are dropped without '
                   'connection_lost', f'{_ci.module.relpath}:{_ci.node.lineno}')
     rep.floor('C10.R33', 'argument parser classes', _np, 1)
+    rep.rule('C10.R34', 'misc.set_terminal_size: the four 32-bit numbers of '
+             'a pty-req / window-change are brought into the range of the '
+             'unsigned shorts of struct winsize (min(..., 0xffff)) before '
+             'struct.pack - a width of 2^32-1 on a session whose stdin is '
+             'redirected to a real tty would otherwise raise struct.error '
+             'inside an asyncio callback')
+    _fts = k.func('misc.set_terminal_size')
+    _pk = [c for c in ast.walk(_fts.node) if is_call(c, 'pack', 'struct')]
+    rep.floor('C10.R34', 'winsize packs', len(_pk), 1)
+    for _c in _pk:
+        _clamp = any(is_call(x, 'min') for a in _c.args[1:]
+                     for x in ast.walk(a))
+        rep.check(_clamp, 'C10.R34', key(_fts, 'sizes clamped'),
+                  'struct.pack(fmt, *(min(max(v, 0), 0xffff) ...))',
+                  'the peer\'s numbers go into struct.pack unbounded: '
+                  'pty-req with width 4294967295 raises struct.error in '
+                  '_PipeWriter.connection_made', _fts.loc(_c))
+    rep.rule('C10.R35', 'RSA private keys in OpenSSH format: '
+             'decode_ssh_private tests p and q before reducing d modulo '
+             'p-1 and q-1 - p = 1 in the file must end in KeyImportError, '
+             'not ZeroDivisionError')
+    _frs = k.func('rsa.RSAKey.decode_ssh_private')
+    _grs = k.cfg(_frs)
+    _rt = [n for n in _grs.nodes if n.kind == 'return' and any(
+        isinstance(x, ast.BinOp) and isinstance(x.op, ast.Mod)
+        for x in ast.walk(n.ast))]
+    _tq = [a.id for a in _grs.nodes if a.kind == 'atom' and isinstance(
+        a.ast, ast.Compare) and names_read(a.ast) & {'p', 'q'}]
+    rep.floor('C10.R35', 'CRT exponent computations', len(_rt), 1)
+    for _n in _rt:
+        _w = _grs.path(_grs.entry, _n.id, blocked_nodes=_tq)
+        rep.check(bool(_tq) and _w is None, 'C10.R35',
+                  key(_frs, 'moduli tested before the reduction'),
+                  'p and q compared before d % (p-1)',
+                  'an unencrypted OpenSSH private key with p = 1 makes '
+                  'import_private_key raise ZeroDivisionError',
+                  k.loc(_frs, _n))
